@@ -1236,7 +1236,8 @@ class C31(WorldCheck):
                                  f"state gave different outputs (max diff {np.nanmax(np.abs(out1 - out2))!r}, "
                                  f"solvers {sim.world['solvers']})"})
                     return False
-            mlog.append(('rerun', out2.tobytes()))
+            # (a stack with memory agrees with its solo execution to solver tolerance only, see below)
+            mlog.append(('rerun', out2.tobytes()) if memoryless else ('SV', [('rerun', out2)]))
             return True
         bracket = kind in READONLY and sim.final
         before = sim.state_bytes() if bracket else None
@@ -1258,6 +1259,10 @@ class C31(WorldCheck):
         dq = bracket and sim.clean and kind in ('check_partials', 'check_totals', 'coloring', 'list_outputs',
                                                  'list_inputs', 'list_vars') and not sim.rt.faults
         tot_before = all_totals() if dq else None
+        # the approximation bound that goes with tot_before (the steps the framework holds now; the read-only
+        # call may make a component recompute them)
+        ab_before = sim.approx_abs_bound() if tot_before is not None and any(
+            c.get('approx') for c in sim.world['comps']) else 0.0
         res, raised, fired = sim.do(op)
         for f in sim.rt.fired[len(sim.rt.fired) - fired:]:
             faults.inc(f['kind'] + ':' + f['method'])
@@ -1295,7 +1300,8 @@ class C31(WorldCheck):
                     tol_ = 1e-12 if (memoryless and not sim._iterative()) else max(sim.tol, 1e-9)
                     # approximated partials: a check may make a component recompute the (relative) steps it had
                     # cached, after which its FD values differ within the method's round-off for those steps
-                    ab_ = 2.0 * sim.approx_abs_bound() if any(c.get('approx') for c in sim.world['comps']) else 0.0
+                    ab_ = 2.0 * max(sim.approx_abs_bound(), ab_before) \
+                        if any(c.get('approx') for c in sim.world['comps']) else 0.0
                     for k_, v0 in tot_before.items():
                         v1 = tot_after.get(k_)
                         if v1 is not None and v1.shape == v0.shape and ab_ > 0.0 and np.all(np.isfinite(v1)) and \
@@ -1682,10 +1688,21 @@ class C11(C02):
                 # the twin against the reference first (this also drops its non-converged iterative solves)
                 if not C02.after_op(self, [sim], op, [(rb, eb, fb)], viol, {}, log):
                     return False
+                # quadratic blocks are linearized at each Problem's own converged state; two solver stacks agree on
+                # that state to their tolerances only (observed: 1.7e-8 in one operator entry, Newton+direct
+                # against Newton+LinearBlockGS), so the operators may differ by (second derivative) x (state
+                # difference) x (unit factors up to 1e3) x |seed|
+                extra = 0.0
+                if a.ref.quads:
+                    dstate = max([float(np.abs(np.asarray(a.p.get_val(n_)) - np.asarray(sim.p.get_val(n_))).max())
+                                  for _k, n_ in a.vec_names()] + [0.0])
+                    cmax = max(float(np.abs(q_[2]).max()) for q_ in a.ref.quads)
+                    extra = 2.0 * cmax * dstate * 1e3 * 8.0
                 for key in ('Av', 'ATw', 'Sv', 'STw'):
                     if key in ra and key in rb:
                         t = 1e-10 if key in ('Av', 'ATw') else max(1e-9, a.tol * 10, sim.tol * 10)
-                        if relerr(rb[key], ra[key], floor=1.0 + float(np.abs(ra[key]).max())) > t:
+                        fl = 1.0 + float(np.abs(ra[key]).max())
+                        if relerr(rb[key], ra[key], floor=fl) > t + extra / fl * (1.0 + float(np.abs(ra[key]).max())):
                             viol.append({'inv': 'I-11-twin-operator', 'msg': f"{key} differs between jacobian "
                                          f"representations: base ({a.world['solvers']['']['ln']}) {ra[key].tolist()} vs "
                                          f"twin {sim.variant} {rb[key].tolist()}", 'ctx': key})
@@ -1849,10 +1866,17 @@ class C12(HistoryCheck):
             cls = self.finding_class(plan, upto)
             if cls:
                 sig += ':' + cls
-        elif viol['inv'] == 'I-12-partials' and \
+        elif viol['inv'] in ('I-12-partials', 'I-12-colored') and \
                 'one-sided-fd-of-implicit-component-on-stale-residuals' in self.finding_classes(plan, upto):
-            # the same recorded finding seen on the partials themselves
+            # the same recorded finding seen on the partials themselves (or as the difference between the
+            # garbage of the plain and of the coloured sweep)
             sig = 'I-12-values:one-sided-fd-of-implicit-component-on-stale-residuals'
+        elif viol['inv'] == 'I-exception' and 'direct.py:solve' in viol.get('ctx', '') and \
+                "no attribute '_lu'" in viol.get('msg', '') and \
+                (plan['knobs'].get('approx_totals') or {}).get('method') == 'cs' and \
+                plan['world']['solvers'].get('', {}).get('nl') in ('newton', 'broyden') and \
+                plan['world']['solvers'].get('', {}).get('ln') in ('direct_csc', 'direct_csr'):
+            sig = 'I-12-values:model-level-cs-approximation-over-newton-with-sparse-assembled-direct-solver'
         elif viol['inv'] == 'I-exception' and 'direct.py:_linearize' in viol.get('ctx', '') and \
                 ('Singular entry found' in viol.get('msg', '') or 'is not full rank' in viol.get('msg', '')):
             # the same two causes with another symptom: when the sub-jacobians the matrix is wrongly built
